@@ -505,8 +505,23 @@ impl<'r> G<'r> {
                         1 => (Expr::Int(3), Expr::Int(1), Some(Expr::Int(-1))),
                         2 => (Expr::Int(6), Expr::Int(2), Some(Expr::Int(-2))),
                         _ => {
-                            // computed step
-                            let e = Expr::Add(Box::new(Expr::Int(1)), Box::new(Expr::Int(1)));
+                            // computed step; sometimes through a FUNCTION (whose own loops
+                            // must not disturb the bounds of this one)
+                            let e = if self.f.functions
+                                && !self.callable_fns.is_empty()
+                                && self.rng.chance(1, 2)
+                            {
+                                let name = self.rng.pick(&self.callable_fns).clone();
+                                Expr::Add(
+                                    Box::new(Expr::Int(2)),
+                                    Box::new(Expr::Mul(
+                                        Box::new(Expr::Call(name, vec![Expr::Int(1)])),
+                                        Box::new(Expr::Int(0)),
+                                    )),
+                                )
+                            } else {
+                                Expr::Add(Box::new(Expr::Int(1)), Box::new(Expr::Int(1)))
+                            };
                             (Expr::Int(0), Expr::Int(3), Some(e))
                         }
                     }
